@@ -21,6 +21,7 @@ EXPLANATION = (
 DECLINED = ["round semantics over arbitrary histories", "behaviour of pthread_barrier_wait itself"]
 ASSUMPTIONS = ["C05.R4 (broadcast wakes every queued waiter) and C04.R3 (enqueue contract)"]
 RULES_DOC = dict(common.SHARED_DOC)
+RULES_DOC["X4"] = common.X4_DOC
 RULES_DOC.update({
     "R1": "barrier_wait: counter ++/compare/reset inside the lock; non-last arm enqueues with the barrier's list+lock; last arm broadcasts and resets before release",
     "R2": "barrier_wait: every success path waited or broadcast, exactly one of the two",
@@ -223,6 +224,8 @@ def rule_R3(P, rep):
 
 
 def run(P, rep, tier):
+    if tier == "thorough":
+        common.rule_X4(P, rep)
     common.run_shared(P, rep)
     rule_R1_R2(P, rep)
     rule_R3(P, rep)
